@@ -3,6 +3,8 @@ mod c05;
 mod c15;
 mod c17;
 mod c19;
+mod c19m;
+mod exec_medium;
 mod case;
 mod exec_float;
 mod exec_int;
@@ -45,6 +47,7 @@ fn gen_case(prop: &str, seed: u64, index: u64) -> case::Case {
         "C04" => c04::gen_case(seed, index),
         "C05" => c05::gen_case(seed, index),
         "C19" => c19::gen_case(seed, index),
+        "C19M" => c19m::gen_case(seed, index),
         "C15" => c15::gen_case(seed, index),
         _ => die(&format!("unknown property {prop}")),
     }
@@ -55,16 +58,20 @@ struct Ctx {
     c05: c05::C05Hook,
     c15: c15::C15Counters,
     c04: c04::C04Counters,
+    c19m: c19m::MediumHook,
 }
 impl Ctx {
     fn new() -> Ctx {
-        Ctx { c05: c05::C05Hook::new(), c15: c15::C15Counters::default(), c04: c04::C04Counters::default() }
+        Ctx { c05: c05::C05Hook::new(), c15: c15::C15Counters::default(), c04: c04::C04Counters::default(), c19m: c19m::MediumHook::default() }
     }
     fn extra(&self) -> serde_json::Value {
         serde_json::json!({
             "c05_comparisons": self.c05.comparisons,
             "c05_equal_pairs": self.c05.equal_pairs,
             "c05_cross_layout_equal_pairs": self.c05.cross_layout_equal_pairs,
+            "c19m_medium_steps": self.c19m.medium_steps,
+            "c19m_decoded_ok": self.c19m.decoded_ok,
+            "c19m_thirdparty_panics_inconclusive": self.c19m.thirdparty_panics,
             "c04_lockstep_steps": self.c04.lockstep_steps,
             "c04_expected_div0_panics": self.c04.expected_div0_panics,
             "c04_integer_valued_results": self.c04.integer_valued_results,
@@ -87,6 +94,7 @@ fn run_case(c: &case::Case, stats: &mut run::Stats, ctx: &mut Ctx) -> case::Case
         "C05" => case::CaseResult::from_outcome(c05::run_case(c, stats, &mut ctx.c05)),
         "C15" => c15::run_case(c, stats, &mut ctx.c15),
         "C04" => c04::run_case(c, stats, &mut ctx.c04),
+        "C19M" => case::CaseResult::from_outcome(c19m::run_case(c, stats, &mut ctx.c19m)),
         p => die(&format!("unknown property {p}")),
     }
 }
